@@ -277,6 +277,13 @@ def gen_pairs(seed, count, depth):
     tb = pool.table([(i32, 1, True), (('str', 'char'), 2, False), (u8, 3, True)], hash_=99, name='FxTabB')
     fixed.append((ta, tb, -1))
     fixed.append((('vec', ta), ('vec', tb), -1))
+    # std::array member vs logical buffer member of the same capacity: not a documented rule (only vector <-> logical
+    # buffer is); whatever the trait says, it must say the same in both directions
+    sa1 = pool.struct([('id', u8), ('data', ('arr', i32, 4))], name='FxArrSt')
+    lb1 = pool.lbuf(i32, 4, 'std::uint8_t', storage='arr', before=[('id', u8)], name='FxLbSt')
+    sa2 = pool.struct([('data', ('arr', ('str', 'char'), 3))], name='FxArrSt2')
+    lb2 = pool.lbuf(('str', 'char'), 3, 'std::size_t', storage='carr', name='FxLbSt2')
+    fixed.append((sa1, lb1, -1)); fixed.append((lb1, sa1, -1)); fixed.append((sa2, lb2, -1))
     for a, b, exp in fixed:
         pairs.append((a, b, exp, ['fixed']))
     while len(pairs) < count and tries < count * 50:
